@@ -116,7 +116,7 @@ def macroRepl (rec : Rec) (env : Env) (text : Str) (silent simple : Bool) (mt : 
         Gen.P.macros_render_2.subM value (paramRepl rec paramsList)
       else if c == '!' || c == '=' then
         let pattern := ptail
-        match env.compile ("^".toList ++ pattern ++ "$".toList) 0 with
+        match env.compile ("^".toList ++ pattern ++ "\\Z".toList) 0 with
         | .ok p =>
           let skip0 := (p.matchStart value).isNone
           let skip := if c == '!' then !skip0 else skip0
@@ -126,7 +126,7 @@ def macroRepl (rec : Rec) (env : Env) (text : Str) (silent simple : Bool) (mt : 
             errorCallback ("illegal macro regular expression: ".toList ++ pattern ++ ": ".toList ++ text)
           return whole
         | .unsupported => raise (.unsupportedRegex pattern)
-        | .missing => raise (.needCompile ("^".toList ++ pattern ++ "$".toList) 0)
+        | .missing => raise (.needCompile ("^".toList ++ pattern ++ "\\Z".toList) 0)
       else
         errorCallback ("illegal macro syntax: ".toList ++ whole)
         return []
